@@ -36,6 +36,7 @@ class Machine:
     def __init__(self, prog, tables=None, default=False, schedule=None, raise_guards=False, variant=None, pick=None):
         self.prog = prog
         self.tables = tables or {}
+        self.flags = {}  # program state written by ("set", name, value) statements
         self.default = default
         self.schedule = schedule or []
         self.raise_guards = raise_guards
@@ -49,6 +50,8 @@ class Machine:
 
     # -- environment ---------------------------------------------------------------
     def cond(self, name):
+        if name.startswith("flag:"):
+            return bool(self.flags.get(name[5:], False))
         tab = self.tables.get(name)
         if tab is None:
             return self.default
@@ -149,6 +152,8 @@ class Machine:
                 return (yield from self.block(st[2], frame, path))
         elif k == "ev":
             pass
+        elif k == "set":
+            self.flags[st[1]] = bool(st[2])
         elif k == "abort":
             return ABORT
         elif k == "break":
